@@ -72,6 +72,10 @@ StartsWith(s, p) == Len(p) <= Len(s) /\ SubSeq(s, 1, Len(p)) = p
 EndsWith(s, p) == Len(p) <= Len(s) /\ SubSeq(s, Len(s) - Len(p) + 1, Len(s)) = p
 MatchAt(t, p, r) == p >= 1 /\ p + Len(r) - 1 <= Len(t) /\ SubSeq(t, p, p + Len(r) - 1) = r
 
+\* length of the longest common prefix of x and y (call with i = 1)
+RECURSIVE LcpLen(_, _, _)
+LcpLen(x, y, i) == IF i <= Len(x) /\ i <= Len(y) /\ x[i] = y[i] THEN LcpLen(x, y, i + 1) ELSE i - 1
+
 Repeat(c, n) == [i \in 1..n |-> c]
 
 RECURSIVE ConcatAllAcc(_, _, _)
